@@ -40,8 +40,7 @@ impl Prop for C06 {
       Case { id: format!("{};{}", id, cell), cell, input: json!({"src": p.text(), "restricted": p.restricted}) }
     }).collect();
     // every registered native function x argument shapes (general class: the bytecode may refuse, but must not lie)
-    for (k, (id, src)) in stdlib_sweep().into_iter().enumerate() {
-      if tier == Tier::Quick && (k as u64 + seed) % 2 != 0 { continue; }
+    for (id, src) in stdlib_sweep().into_iter() {
       let f = id.split(';').next().unwrap_or("").to_string();
       out.push(Case { id: format!("stdlib;{}", id), cell: format!("stratum=general;constructs=stdlib;{}", f), input: json!({"src": src, "restricted": false}) });
     }
